@@ -125,7 +125,7 @@ def readme():
     for t in sorted(SEEDED.glob("*/meta.json")):
         m = json.loads(t.read_text())
         v = "; ".join(f"{k}: {x['verdict']}" for k, x in m.get("checks", {}).items())
-        lines.append(f"| {m['id']} | {m['breaks_property']} | {m.get('needs_to_manifest','')} | {m.get('confirmed')} | {v} |")
+        lines.append(f"| {m['id']} | {m['breaks_property']} | {m.get('needs_to_manifest','').replace('|', '¦')} | {m.get('confirmed')} | {v} |")
     lines += ["", "`caught` = exit 1 with `VIOLATION property=… replay=…` and a failing input; `caught(no-failing-input-found)` = the",
               "correspondence broke but the oracle found no input on which the property itself fails.",
               "History: the first run of this table missed C03-B, C04-A, C07-B, C10-A, C11-A, C11-B, C12-A, C16-B, C17-A and C19-B;",
